@@ -367,3 +367,69 @@ impl From<SerdeEvent> for Event {
 		}
 	}
 }
+
+/// All fields of a [`SerdeTag`], for verification harnesses (Kani only).
+#[cfg(kani)]
+#[derive(Clone, Debug, Default)]
+#[allow(missing_docs, clippy::missing_docs_in_private_items)]
+pub struct SerdeTagParts {
+	pub kind: TagKind,
+	pub absolute: Option<PathBuf>,
+	pub filetype: Option<FileType>,
+	pub simple: Option<FsEventKind>,
+	pub full: Option<String>,
+	pub source: Option<Source>,
+	pub keycode: Option<Keyboard>,
+	pub pid: Option<u32>,
+	pub signal: Option<Signal>,
+	pub disposition: Option<ProcessDisposition>,
+	pub code: Option<i64>,
+}
+
+#[cfg(kani)]
+impl SerdeTag {
+	/// Build a wire tag from arbitrary field values (Kani only).
+	#[must_use]
+	pub fn from_parts(p: SerdeTagParts) -> Self {
+		Self {
+			kind: p.kind,
+			absolute: p.absolute,
+			filetype: p.filetype,
+			simple: p.simple,
+			full: p.full,
+			source: p.source,
+			keycode: p.keycode,
+			pid: p.pid,
+			signal: p.signal,
+			disposition: p.disposition,
+			code: p.code,
+		}
+	}
+
+	/// Take a wire tag apart (Kani only).
+	#[must_use]
+	pub fn into_parts(self) -> SerdeTagParts {
+		SerdeTagParts {
+			kind: self.kind,
+			absolute: self.absolute,
+			filetype: self.filetype,
+			simple: self.simple,
+			full: self.full,
+			source: self.source,
+			keycode: self.keycode,
+			pid: self.pid,
+			signal: self.signal,
+			disposition: self.disposition,
+			code: self.code,
+		}
+	}
+}
+
+#[cfg(kani)]
+impl SerdeEvent {
+	/// Tags of the wire event (Kani only).
+	#[must_use]
+	pub fn tags(&self) -> &[Tag] {
+		&self.tags
+	}
+}
